@@ -137,8 +137,7 @@ def _r1(model, res, c, R='R1'):
     sites = []
     for k, (m, f) in sorted(cg.funcs.items()):
         for n in ast.walk(f) if '.<locals>.' not in k[1] else []:
-            if isinstance(n, ast.Call) and isinstance(n.func, ast.Attribute) and n.func.attr == 'parse' and \
-                    isinstance(n.func.value, ast.Attribute) and n.func.value.attr in cg.yacc_attrs:
+            if cg.is_yacc_parse(f, n):
                 sites.append((k, m, f, n))
     res.floor('parse calls on a ply yacc object', len(sites), 1)
     for k, m, f, n in sites:
@@ -372,8 +371,7 @@ def shared_locks(model, res, c, R):
             for x in body_calls:
                 callees |= cg.sites.get((k, id(x)), set())
                 # running the ply parser runs the grammar actions (and through them the callbacks, listeners and functions)
-                if isinstance(x.func, ast.Attribute) and x.func.attr == 'parse' and isinstance(x.func.value, ast.Attribute) \
-                        and x.func.value.attr in cg.yacc_attrs:
+                if cg.is_yacc_parse(f, x):
                     callees |= set(cg.p_roots)
             via = sorted(cg.reachable(sorted(callees)) & host_calling) if callees else []
             bad = bool(direct) or bool(via)
